@@ -3,6 +3,7 @@
 Decided by abstract interpretation (zone domain, engine/zone.py) of every function reachable from the formatter / filter
 entry points: element accesses in range, loops with a ranking function, parsed integers bounded before they size an
 allocation or a loop, enum-indexed tables large enough; plus a def-use rule for regular expressions built from text."""
+import re
 from engine.util import *
 from engine import zone
 from engine.dbm import INF
